@@ -27,6 +27,7 @@ ABSL_ATTRIBUTE_NOINLINE VersionedValue<T> IdAllocator<T>::allocate() {
     new_head.value =
         _free_next_value[current_head.value].load(::std::memory_order_relaxed);
     new_head.version = current_head.version;
+    BABYLON_VERIF_POINT("ida:alloc_before_cas");
     if (free_head().compare_exchange_weak(current_head, new_head,
                                           ::std::memory_order_acq_rel)) {
       _free_next_value[current_head.value].store(ACTIVE_FLAG,
@@ -48,6 +49,7 @@ ABSL_ATTRIBUTE_NOINLINE void IdAllocator<T>::deallocate(VersionedValue<T> id) {
     id.version = current_head.version + 1;
     _free_next_value[id.value].store(current_head.value,
                                      ::std::memory_order_relaxed);
+    BABYLON_VERIF_POINT("ida:dealloc_before_cas");
   } while (!free_head().compare_exchange_weak(current_head, id,
                                               ::std::memory_order_release,
                                               ::std::memory_order_acquire));
